@@ -7,7 +7,7 @@ import PbVerif.Model.MSet
   sizefield <n>                        SizeField
   consume <0|1> <hex>                  ConsumeFieldValue(b, wantLen)   → ok <typeid> <hex> <n> | err <e>
   items <0|1> <hex>                    Unmarshal(b, wantLen, fn)       → ok <t>:<hex>,… | err <e>
-  decode <0|1> <ids|-> <hex>           decodeSet (known = listed ids)  → ok <t>:<hex>,… <unknownhex> | err <e>
+  decode <0|1> <ids|-> <hex>           decodeSet, 1 = fast path, 0 = reflection path (known = listed ids)  → ok <t>:<hex>,… <unknownhex> | err <e>
   encode <0|1> <t>:<hex>,…|- <hex>     encodeSet det                   → ok <hex> | err <e>
   size <t>:<hex>,…|- <hex>             sizeSet
   appendunknown <hex> | sizeunknown <hex>
@@ -83,9 +83,15 @@ def msetStep : List String → String
   | ["sizeunknown", u] => match bytesOfHex u with
     | some u => toString (sizeUnknown u) | none => "bad-op"
   | ["lazyitem", t, h] => match t.toNat?, bytesOfHex h with
-    | some t, some lb => hexOfBytes (encodeLazyItem t lb) | _, _ => "bad-op"
+    | some t, some lb => (match encodeLazyItem t lb with
+      | .ok b => s!"ok {hexOfBytes b}"
+      | .error e => s!"err {errStr e}")
+    | _, _ => "bad-op"
   | ["lazysize", t, h] => match t.toNat?, bytesOfHex h with
-    | some t, some lb => toString (sizeLazyItem t lb) | _, _ => "bad-op"
+    | some t, some lb => (match sizeLazyItem t lb with
+      | .ok n => s!"ok {n}"
+      | .error e => s!"err {errStr e}")
+    | _, _ => "bad-op"
   | _ => "bad-op"
 
 def main : IO Unit := Driver.run msetStep
